@@ -18,6 +18,7 @@ import (
 	"encoding/json"
 	"fmt"
 	"net/http"
+	"sync"
 )
 
 // WellKnownConfig represents the OIDC well-known configuration
@@ -45,11 +46,15 @@ var (
 	// It is used to cache well-known configurations as they usually don't change. URLs are usually stable, and the only
 	// things that are subject to change are the signing keys, but those are already watched periodically by the JWKS fetcher.
 	wellKnownConfigs = make(map[string]WellKnownConfig)
+	// wellKnownConfigsMu guards wellKnownConfigs, which is read and written by concurrent checks.
+	wellKnownConfigsMu sync.Mutex
 )
 
 // GetWellKnownConfig retrieves the OIDC well-known configuration from the given issuer URL.
 func GetWellKnownConfig(client *http.Client, url string) (WellKnownConfig, error) {
+	wellKnownConfigsMu.Lock()
 	cfg, ok := wellKnownConfigs[url]
+	wellKnownConfigsMu.Unlock()
 	if ok {
 		return cfg, nil
 	}
@@ -71,6 +76,8 @@ func GetWellKnownConfig(client *http.Client, url string) (WellKnownConfig, error
 		return WellKnownConfig{}, err
 	}
 
+	wellKnownConfigsMu.Lock()
 	wellKnownConfigs[url] = cfg
+	wellKnownConfigsMu.Unlock()
 	return cfg, nil
 }
